@@ -82,6 +82,49 @@ def run(tier, seed):
                 v.drift({"case": r["id"], "note": "handoff succeeded although the artifact store is a plain file"})
         if not tail[5]["ok"]:
             v.violation(f"handoff still fails after the artifact store was mended: {str(tail[5]['ret'])[:160]}", rep)
+    # ---- the cut does not depend on the state of the source thread's cache files: with the per-thread sidecar (or its
+    #      message-and-run view) torn in its last line, cut short, overwritten or missing - with and without a restart - the next
+    #      branch / handoff must record the same cut and message as on the intact store (Threads.tla: EffLineage is a function
+    #      of the thread's frames in the log).  Faults that leave a readable but stale file are C04's findings and are not used.
+    run_pair = [{"op": "run_spawned", "t": 0, "m": 0, "s": 0}, {"op": "run_ended", "t": 0, "m": 0, "s": 0}]
+    bases = {"ends_with_run_ended": ([{"op": "ensure_default"}, {"op": "message", "t": 0}] + run_pair, 3, 0),
+             "ends_with_message": ([{"op": "ensure_default"}, {"op": "message", "t": 0}] + run_pair + [{"op": "message", "t": 0}], 4, 1)}
+    fhist = []
+    for bname, (base, head, last_msg) in bases.items():
+        for kind in ("branch", "handoff"):
+            for sel_name, sel in (("none", {}), ("from_seq_head", {"from_seq": head}), ("from_last_message", {"from_msg": last_msg}), ("from_first_message", {"from_msg": 0})):
+                op = dict({"op": kind, "t": 0}, **sel)
+                if kind == "handoff":
+                    op["summary"] = "summary text"
+                tail = [op, {"op": "lineage_check", "t": 1}]
+                ref = f"cf-{bname}-{kind}-{sel_name}-ref"
+                fhist.append({"id": ref, "ops": base + [{"op": "restart"}] + tail})
+                for file in ("full", "mr"):
+                    for fk in ("tear_last_line", "truncate", "garbage", "delete"):
+                        for restart in (True, False):
+                            if tier != "thorough" and not restart and fk in ("garbage", "delete"):
+                                continue
+                            fhist.append({"id": f"cf-{bname}-{kind}-{sel_name}-{file}-{fk}-{'restart' if restart else 'warm'}",
+                                          "ops": base + [{"op": "fault", "t": 0, "file": file, "kind": fk}] + ([{"op": "restart"}] if restart else []) + tail,
+                                          "_ref": ref, "_what": f"{fk} of the {'sidecar' if file == 'full' else 'message-and-run view'}" + (" and a restart" if restart else "")})
+    fres = {r["id"]: r for r in run_harness("hist", [{k: h[k] for k in h if not k.startswith("_")} for h in fhist], wd, "cfault", shards=8, timeout=900)}
+
+    def lineage_answer(r):
+        a, b = r["results"][-2], r["results"][-1]
+        ret = a.get("ret") if isinstance(a.get("ret"), dict) else {}
+        chk = b.get("ret") if isinstance(b.get("ret"), dict) else {}
+        return {"ok": a.get("ok"), "cut": ret.get("seq"), "names_a_message": ret.get("message_id") is not None if a.get("ok") else None,
+                "error": None if a.get("ok") else str(a.get("ret"))[:80], "child": (chk.get("kinds"), chk.get("seqs")) if a.get("ok") else None}
+    for h in fhist:
+        if "_ref" not in h:
+            continue
+        r, ref = fres[h["id"]], fres[h["_ref"]]
+        v.add_eval({"cache_fault": h["id"]}, True)
+        got, want = lineage_answer(r), lineage_answer(ref)
+        if got != want:
+            v.violation(f"after {h['_what']}, {h['ops'][-2]} answers {got} instead of {want} (intact store)",
+                        {"engine": "hist", "guard": "cache_fault", "case": {k_: h[k_] for k_ in h if not k_.startswith('_')}, "want": want})
+    v.cov["cache_fault_histories"] = len(fhist)
     v.assumptions += ["source threads <= MaxFrames frames (exhaustive within the configuration)"]
     return v.finish(
         rule="cases = (distinct store state, branch/handoff request) pairs: every selector class of Threads.tla!OpsFor; "
@@ -94,6 +137,16 @@ def replay(path, seed):
         rep = json.load(f)
     case = rep["case"]
     wd = workdir(PROP + "-replay")
+    if case.get("engine") == "hist" and case.get("guard") == "cache_fault":
+        r = run_harness("hist", [case["case"]], wd, "replay")[0]
+        a = r["results"][-2]
+        ret = a.get("ret") if isinstance(a.get("ret"), dict) else {}
+        got = {"ok": a.get("ok"), "cut": ret.get("seq")}
+        print(json.dumps({"got": got, "want": case["want"]}))
+        if got["ok"] != case["want"]["ok"] or got["cut"] != case["want"]["cut"]:
+            print(f"VIOLATION property={PROP} replay={path}")
+            return 1
+        return 0
     res = run_harness("trans", [case["case"]], wd, "replay")[0]
     r = res["trans"][0]
     diffs = [d for d in threads.compare(case["model_op"], case["predicted"], r, 0) if d[0] != "log"]
